@@ -21,6 +21,7 @@ import (
 	"github.com/go-kit/log/level"
 	"github.com/prometheus/client_golang/prometheus"
 	"github.com/prometheus/client_golang/prometheus/promauto"
+	"github.com/prometheus/prometheus/model/labels"
 	"github.com/prometheus/prometheus/promql"
 	"github.com/prometheus/prometheus/promql/parser"
 	"github.com/prometheus/prometheus/storage"
@@ -333,10 +334,29 @@ loop:
 	// For range Query we expect always a Matrix value type.
 	if q.t == RangeQuery {
 		resultMatrix := make(promql.Matrix, 0, len(series))
+		// Operators that drop labels can leave several series with the same
+		// labels that have samples at different steps. They are one series of
+		// the result, as in the Prometheus engine.
+		byLabels := make(map[uint64][]int, len(series))
 		for _, s := range series {
 			if len(s.Points) == 0 {
 				continue
 			}
+			hash := s.Metric.Hash()
+			merged := false
+			for _, i := range byLabels[hash] {
+				if labels.Equal(resultMatrix[i].Metric, s.Metric) {
+					points := append(resultMatrix[i].Points, s.Points...)
+					sort.SliceStable(points, func(a, b int) bool { return points[a].T < points[b].T })
+					resultMatrix[i].Points = points
+					merged = true
+					break
+				}
+			}
+			if merged {
+				continue
+			}
+			byLabels[hash] = append(byLabels[hash], len(resultMatrix))
 			resultMatrix = append(resultMatrix, s)
 		}
 		sort.Sort(resultMatrix)
